@@ -79,10 +79,12 @@ def run_honest(ctx, case):
                 return False
             sids = [(tc.session_id, ts.session_id)]
             tc.auth_password("u", "pw")
-            for who in rekeys:
+            for k, who in enumerate(rekeys):
                 t = tc if who == "c" else ts
                 try:
                     t.renegotiate_keys()
+                    if not mitm.wait_exchanges(2 + k, tc, ts):
+                        raise EOFError("re-exchange %d did not complete on both sides" % (k + 1))
                     # a round trip makes sure the other side switched too and gives the Tap
                     # a packet after NEWKEYS in both directions
                     tc.global_request("verif-c06@verif", wait=True)
@@ -166,6 +168,25 @@ def _flip(b, pos):
     return bytes(bb)
 
 
+def _flip_sig(sig, part, n, state):
+    """Flip one bit of the signature blob `string algorithm || string blob`. `part` selects the
+    region by structure (the blob length varies from signature to signature, a raw offset would not
+    replay): name-len / name / blob-len / blob; None = raw offset into the whole field."""
+    if part is None:
+        return _flip(sig, n)
+    rd = R.Reader(sig)
+    name = rd.string()
+    rest = rd.rest()
+    regions = {"name-len": (0, 4), "name": (4, len(name)), "blob-len": (4 + len(name), 4), "blob": (8 + len(name), max(0, len(rest) - 4))}
+    off, ln = regions[part]
+    if ln == 0 or off + ln > len(sig):
+        return _flip(sig, n)
+    new = sig[:off] + _flip(sig[off : off + ln], n) + sig[off + ln :]
+    if part == "blob-len":
+        state["blob_len_increased"] = int.from_bytes(new[off : off + 4], "big") > int.from_bytes(sig[off : off + 4], "big")
+    return new
+
+
 def _other_public(kex, seed):
     """Another valid public value for an EC kex, derived from `seed` (bytes)."""
     from cryptography.hazmat.primitives import serialization
@@ -207,7 +228,7 @@ def _edit_reply(kex, hostalg, fault, payload, state):
         if field == "k_s":
             k_s = _flip(k_s, fault["n"])
         elif field == "sig":
-            sig = _flip(sig, fault["n"])
+            sig = _flip_sig(sig, fault.get("part"), fault["n"], state)
         else:  # public value
             if fmt[1] == "m":
                 klen = (mid.bit_length() + 7) // 8
@@ -310,8 +331,13 @@ def run_fault(ctx, case):
     if not edited:
         ctx.case(case, False, ["fault:not-applied"])
         return True
-    ctx.case(case, True, ["fault", "fault:" + kind + (":" + fault["field"] if "field" in fault else ""), "fkex:" + kex, "fhostalg:" + hostalg])
-    bucket = "%s:%s/%s" % (kind + (":" + fault["field"] if "field" in fault else ""), fam, HOSTALG[hostalg].rstrip("b").rstrip("0123456789") if not hostalg.endswith("25519") else "ed25519")
+    ctx.case(case, True, ["fault", "fault:" + kind + (":" + fault["field"] if "field" in fault else "") + ("/" + fault["part"] if fault.get("part") else ""), "fkex:" + kex, "fhostalg:" + hostalg])
+    ktype = HOSTALG[hostalg].rstrip("b").rstrip("0123456789") if not hostalg.endswith("25519") else "ed25519"
+    bucket = "%s:%s/%s" % (kind + (":" + fault["field"] if "field" in fault else ""), fam, ktype)
+    if state.get("blob_len_increased"):
+        # one root cause whatever the kex: the length prefix of the inner signature string was made
+        # larger than the data that follows (see known_findings.d/C06.json)
+        bucket = "flip:sig:blob-length-increased/%s" % ktype
     sent_newkeys = 21 in m.types("c2s")
     if ce is None or done or sent_newkeys:
         what = "accepted" if ce is None else ("initial_kex_done" if done else "sent-NEWKEYS")
@@ -325,7 +351,10 @@ def run_fault(ctx, case):
 
 def fault_st(kex_st):
     n = st.integers(0, 2**40)
-    flip = st.fixed_dictionaries({"kind": st.just("flip"), "field": st.sampled_from(["k_s", "sig", "pub"]), "n": n})
+    flip = st.one_of(
+        st.fixed_dictionaries({"kind": st.just("flip"), "field": st.sampled_from(["k_s", "pub"]), "n": n}),
+        st.fixed_dictionaries({"kind": st.just("flip"), "field": st.just("sig"), "part": st.sampled_from(["name-len", "name", "blob-len", "blob", "blob", "blob"]), "n": n}),
+    )
     pub = st.fixed_dictionaries({"kind": st.just("pub"), "n": st.integers(0, 2**1000), "seed": st.binary(min_size=8, max_size=16)})
     sigalg = st.fixed_dictionaries({"kind": st.just("sigalg"), "name": st.sampled_from(SIGNAMES)})
     swap = st.just({"kind": "swapkey"})
@@ -369,7 +398,7 @@ def run(ctx):
         run_honest(ctx, {"kind": "honest", "kex": kex, "hostalg": hostalg, "rekeys": rk})
     floor = []
     for i, kex in enumerate(KEXES):
-        floor.append({"kind": "fault", "kex": kex, "hostalg": ALLKEYALGS[(2 * i) % 7], "fault": {"kind": "flip", "field": ["sig", "k_s", "pub"][i % 3], "n": 7 + 13 * i}})
+        floor.append({"kind": "fault", "kex": kex, "hostalg": ALLKEYALGS[(2 * i) % 7], "fault": dict({"kind": "flip", "field": ["sig", "k_s", "pub"][i % 3], "n": 7 + 13 * i}, **({"part": "blob"} if i % 3 == 0 else {}))})
     for hostalg in ALLKEYALGS:
         floor.append({"kind": "fault", "kex": CHEAP[0], "hostalg": hostalg, "fault": {"kind": "swapkey"}})
     floor.append({"kind": "fault", "kex": CHEAP[1], "hostalg": "ssh-ed25519", "fault": {"kind": "replay"}})
@@ -382,8 +411,8 @@ def run(ctx):
     ctx.note("kex_x_hostalg_honest_floor", len(combos))
     # 2. hypothesis-drawn remainder; quick keeps to the cheap methods, thorough draws from all
     kex_st = st.sampled_from(CHEAP) if quick else st.one_of(st.sampled_from(CHEAP), st.sampled_from(KEXES))
-    ctx.explore(fault_st(kex_st), lambda c: _dispatch(ctx, c), ctx.scale(110, 700), shrink=False, seed_offset=0)
-    ctx.explore(honest_st(kex_st, 3), lambda c: _dispatch(ctx, c), ctx.scale(25, 150), shrink=False, seed_offset=1)
+    ctx.explore(fault_st(kex_st), lambda c: _dispatch(ctx, c), ctx.scale(110, 4000), shrink=False, seed_offset=0)
+    ctx.explore(honest_st(kex_st, 3), lambda c: _dispatch(ctx, c), ctx.scale(25, 800), shrink=False, seed_offset=1)
 
 
 def replay(ctx, case):
